@@ -9,6 +9,7 @@ CONSTANTS
   ROs = {FALSE}
   ExtNames = {"a", "b"}
   MaxFiles = {2, 1000000}
+  FaultSet <- FaultsAll
   WhatIf = "none"
 SPECIFICATION Spec
 INVARIANT NoViolation
